@@ -138,6 +138,39 @@ def load_catalogue():
     return ms
 
 
+def benign(argv):
+    """False-alarm self-test: behaviour-preserving refactorings of the library (benign/catalogue.json) must pass every
+    check (exit 0) - and the pinned suite."""
+    ids = [a for a in argv if not a.startswith("--")]
+    props = [a[8:].split(",") for a in argv if a.startswith("--props=")]
+    import plans
+    props = props[0] if props else sorted(plans.PLANS)
+    cat = json.load(open(os.path.join(VERIF, "benign", "catalogue.json")))
+    if ids:
+        cat = [m for m in cat if any(m["id"].startswith(i) for i in ids)]
+    bad = []
+    for m in cat:
+        dst = make_copy(m["id"])
+        try:
+            apply_mutant(dst, m)
+            ok, missing = baseline_ok(dst) if "--with-tests" in argv else (True, [])
+            alarms = []
+            t0 = time.time()
+            for p in props:
+                env = dict(os.environ, VERIF_REPO=dst, VERIF_EVIDENCE_DIR=os.path.join(dst, "_evidence"), VERIF_OUT_DIR=os.path.join(dst, "_out"))
+                r = subprocess.run([PY, os.path.join(HERE, "check.py"), p, "quick"], capture_output=True, text=True, env=env, timeout=7200)
+                if r.returncode != 0:
+                    alarms.append("%s:rc%d" % (p, r.returncode))
+                    out(r.stdout[-800:])
+            out("%-8s %-28s alarms=%s tests=%s %.0fs" % ("QUIET" if not alarms else "ALARM", m["id"], ",".join(alarms) or "-", "pass" if ok else "FAIL%r" % missing[:2], time.time() - t0))
+            if alarms or not ok:
+                bad.append(m["id"])
+        finally:
+            shutil.rmtree(dst, ignore_errors=True)
+    out("benign: %d/%d quiet; not quiet: %s" % (len(cat) - len(bad), len(cat), bad))
+    return 0 if not bad else 3
+
+
 def mutants(argv):
     with_tests = "--with-tests" in argv
     tier = "thorough" if "--thorough" in argv else "quick"
